@@ -285,9 +285,6 @@ pub fn menu(th: &Theory, run: &Run, b: &Bounds, explored_ops: &[Op]) -> Vec<Op> 
     let n_new = |t: usize| explored_ops.iter().filter(|o| matches!(o, Op::New(x) if *x == t)).count();
     let n_def = explored_ops.iter().filter(|o| matches!(o, Op::Define(..) | Op::NewEnum(..))).count();
     let n_close = explored_ops.iter().filter(|o| matches!(o, Op::Close | Op::CloseUntil(_))).count();
-    for (ti, t) in th.types.iter().enumerate() {
-        if t.kind != TypeKind::Enum && n_new(ti) < b.extra_new { m.push(Op::New(ti)); }
-    }
     // facts: unary, then wider
     let mut rel_order: Vec<usize> = (0..th.rels.len()).collect();
     rel_order.sort_by_key(|&r| th.rels[r].arity.len());
@@ -307,6 +304,12 @@ pub fn menu(th: &Theory, run: &Run, b: &Bounds, explored_ops: &[Op]) -> Vec<Op> 
     for ti in 0..th.types.len() {
         let hs: Vec<usize> = run.handles.iter().enumerate().filter(|(_, h)| h.0 == ti).map(|(i, _)| i).collect();
         for i in 0..hs.len() { for j in i + 1..hs.len() { m.push(Op::Equate(ti, hs[i], hs[j])); } }
+    }
+    // element creation during the search comes last: when a cap ends a level early, the histories
+    // over the prelude's elements have been explored first
+    let mut news = Vec::new();
+    for (ti, t) in th.types.iter().enumerate() {
+        if t.kind != TypeKind::Enum && n_new(ti) < b.extra_new { news.push(Op::New(ti)); }
     }
     if n_close < b.max_closes {
         m.push(Op::Close);
@@ -328,6 +331,7 @@ pub fn menu(th: &Theory, run: &Run, b: &Bounds, explored_ops: &[Op]) -> Vec<Op> 
             }
         }
     }
+    m.extend(news);
     m
 }
 
